@@ -287,6 +287,10 @@ func errorResponses(errs []*spec.ErrorDef) {
 		if e.Inherit != "" {
 			continue // mapped where it is inherited from
 		}
+		if e.EmptyBody {
+			dsl.Response(e.Name, e.Status, func() { dsl.Body(dsl.Empty) })
+			continue
+		}
 		if len(e.Headers) == 0 {
 			dsl.Response(e.Name, e.Status)
 			continue
